@@ -284,7 +284,7 @@ def run_direct_case(ctx, mods, v, hist, kind, pos, same_read, second, rng_pick):
         elif kind == 'garbage-event':
             fr = F.frame(v, 0, -1, F.OPNUM['EVENT'], b'\x00\x05BOGUS')
         elif kind in ('protocol-pending', 'protocol-cp'):
-            fr = F.response(v, run.h[target]['rid'], 'ERROR', F.body_error(v, 'protocol', 'Invalid or unexpected frame'))
+            fr = F.response(v, run.h[target]['rid'], 'ERROR', F.body_error(v, 'protocol', PROTOCOL_ERROR_TEXTS[rng_pick % len(PROTOCOL_ERROR_TEXTS)]))
         elif kind == 'bad-version':
             fr = bytes([0x80 | 0x7e]) + b'\x00\x00\x00\x02\x00\x00\x00\x00'
         elif kind == 'negative-length':
@@ -294,8 +294,18 @@ def run_direct_case(ctx, mods, v, hist, kind, pos, same_read, second, rng_pick):
         except Exception as e:      # noqa
             return [('process-io-buffer-raises', 'feeding the failing frame raised %s: %s' % (type(e).__name__, e))]
         if not (conn.is_defunct or conn.is_closed):
+            if kind in ('protocol-pending', 'protocol-cp'):
+                # a PROTOCOL_ERROR answer on a stream that has a handler is one of the failures the property names: whatever its text, the
+                # connection must be failed and every other outstanding handler errored
+                ctx.count("direct_protocol_errors_that_did_not_fail_the_connection")
+                others = [t for t in pending if t != target and not run.h[t]['calls'][calls_before[t]:]]
+                return [('protocol-error-did-not-fail-connection', 'PROTOCOL_ERROR %r on stream %d left the connection open (is_defunct False, is_closed False); '
+                         '%d other outstanding handler(s) were never invoked' % (PROTOCOL_ERROR_TEXTS[rng_pick % len(PROTOCOL_ERROR_TEXTS)],
+                                                                                   run.h[target]['rid'], len(others)))]
             ctx.count("direct_failing_frame_not_rejected")
             return None
+        if kind in ('protocol-pending', 'protocol-cp'):
+            ctx.count("direct_protocol_error_texts_seen: %d" % (rng_pick % len(PROTOCOL_ERROR_TEXTS)))
     if not _join_helper_threads(ctx):
         return None
     ctx.count("direct_failures_injected")
@@ -456,6 +466,13 @@ def _run_direct_loop(ctx, mods, rng, budget_s):
 # =====================================================================================================
 # B. the Session stack in the deterministic world
 # =====================================================================================================
+# what Cassandra writes into a PROTOCOL_ERROR: the text is input like everything else (the driver looks at it)
+PROTOCOL_ERROR_TEXTS = ['Invalid or unexpected frame',
+                        'Invalid or unsupported protocol version (7); supported versions are (3/v3, 4/v4, 5/v5, 6/v6-beta)',
+                        'Beta version of the protocol used (6/v6-beta), but USE_BETA flag is unset',
+                        'Invalid value for the compression option: bogus', '', 'Unknown opcode 99',
+                        'Invalid or unsupported protocol version: 2']
+
 SESSION_KINDS = ('reset', 'eof', 'close', 'garbage', 'protocol', 'heartbeat')
 
 
@@ -539,7 +556,23 @@ def run_session_case(ctx, seed, nodes, proto, acts, kind, pos, p_preempt):
         if kind == 'heartbeat':
             hb = C.ConnectionHeartbeat.__new__(C.ConnectionHeartbeat)
             hb._interval, hb._timeout, hb._get_connection_holders = 2.0, 1.0, cluster.get_connection_holders
-            hb._shutdown_event = C.Event()
+            real_ev = C.Event()
+
+            class _Between(object):
+                """the heartbeat thread's stop event, recording whether the thread sits between two rounds (in its interval wait)"""
+                def wait(self, t=None):
+                    ctl['hb_between_rounds'] = True
+                    try:
+                        return real_ev.wait(t)
+                    finally:
+                        ctl['hb_between_rounds'] = False
+
+                def is_set(self):
+                    return real_ev.is_set()
+
+                def set(self):
+                    real_ev.set()
+            hb._shutdown_event = _Between()
             env.world.spawn(hb.run, name='heartbeat')
         ch.p_time = 0.05
         held_of = []
@@ -579,7 +612,8 @@ def run_session_case(ctx, seed, nodes, proto, acts, kind, pos, p_preempt):
                 env.net.send(conn, F.frame(proto, 0, -1, F.OPNUM['EVENT'], b'\x00\x05BOGUS'))
         elif kind == 'protocol':
             if streams:
-                env.net.send(conn, F.response(proto, streams[seed % len(streams)], 'ERROR', F.body_error(proto, 'protocol', 'Invalid or unexpected frame')))
+                env.net.send(conn, F.response(proto, streams[seed % len(streams)], 'ERROR',
+                                              F.body_error(proto, 'protocol', PROTOCOL_ERROR_TEXTS[(seed // 7) % len(PROTOCOL_ERROR_TEXTS)])))
             else:
                 applicable = False
         elif kind == 'heartbeat':
@@ -596,22 +630,32 @@ def run_session_case(ctx, seed, nodes, proto, acts, kind, pos, p_preempt):
                 h.release()
             env.world.settle(advance=False)
             if hb is not None:
-                # every connection (pool or control) whose heartbeat was sent to the silent node and whose round is over by now: the
-                # heartbeat failed, so the connection must have been failed (its handlers are then judged below like any other).
-                # A round judges its unanswered heartbeats one after the other, each within the heartbeat timeout (1 s): 3.5 s is beyond
-                # any round of the <= 3 connections to the silent node in this world.
-                with env.world.inspect():
-                    for ent in log:
-                        c = ent['conn']
-                        if ent['msg'] == 'OptionsMessage' and ent['accepted'] and not any(not isinstance(x[1], Exception) for x in ent['calls']) and str(c.endpoint.address) == addrs[0] \
-                                and ctl.get('t_dead') is not None and ent['t'] > ctl['t_dead'] and ent['t'] <= env.world.now - 3.5:
-                            info['heartbeats_unanswered'] = info.get('heartbeats_unanswered', 0) + 1
-                            if getattr(c, 'is_control_connection', False):
-                                info['heartbeats_unanswered_control'] = info.get('heartbeats_unanswered_control', 0) + 1
-                            if not (c.is_closed or c.is_defunct):
-                                viol.append(('connection-not-failed-after-heartbeat-failure', 'connection %d (%s%s) sent a heartbeat at t=%.2f that was never '
-                                             'answered; at t=%.2f it is neither defunct nor closed and the heartbeat handler was never invoked' % (
-                                                 c.sim_id, c.sim_creator, ', control' if getattr(c, 'is_control_connection', False) else '', ent['t'], env.world.now)))
+                # Every connection (pool or control) whose heartbeat was sent to the silent node in a round that is over: the heartbeat failed,
+                # so the connection must have been failed (its handlers are then judged below like any other).  "Over" is decided on the
+                # heartbeat thread's own state, not on elapsed time (a thread may be scheduled arbitrarily late): with every thread run until
+                # it blocks, the thread either sits in its interval wait - all rounds it started are complete - or inside a round, in which
+                # case time is moved on by one heartbeat timeout and the question is asked again.
+                for _ in range(12):
+                    if ctl.get('hb_between_rounds'):
+                        break
+                    env.world.advance_to(env.world.now + 1.0)
+                    env.world.settle(advance=False)
+                if not ctl.get('hb_between_rounds'):
+                    info['heartbeat_round_never_ended'] = True
+                else:
+                    with env.world.inspect():
+                        for ent in log:
+                            c = ent['conn']
+                            if ent['msg'] == 'OptionsMessage' and ent['accepted'] and not any(not isinstance(x[1], Exception) for x in ent['calls']) \
+                                    and str(c.endpoint.address) == addrs[0] and ctl.get('t_dead') is not None and ent['t'] > ctl['t_dead']:
+                                info['heartbeats_unanswered'] = info.get('heartbeats_unanswered', 0) + 1
+                                if getattr(c, 'is_control_connection', False):
+                                    info['heartbeats_unanswered_control'] = info.get('heartbeats_unanswered_control', 0) + 1
+                                if not (c.is_closed or c.is_defunct):
+                                    viol.append(('connection-not-failed-after-heartbeat-failure', 'connection %d (%s%s) sent a heartbeat at t=%.2f that was never '
+                                                 'answered; its heartbeat round is over (t=%.2f) and it is neither defunct nor closed, the heartbeat handler was '
+                                                 'never invoked' % (c.sim_id, c.sim_creator, ', control' if getattr(c, 'is_control_connection', False) else '',
+                                                                    ent['t'], env.world.now)))
                 hb._shutdown_event.set()
             env.world.advance_to(env.world.now + 4.0)
             env.world.settle(advance=False)
@@ -741,6 +785,8 @@ def run_session(ctx, budget_s):
                 ctx.count("session_answers_dispatched_inside_the_close_window", info.get('answered_in_close_window', 0))
                 if info.get('not_failed'):
                     ctx.count("session_injection_did_not_fail_connection")
+                if info.get('heartbeat_round_never_ended'):
+                    ctx.count("session_heartbeat_round_never_ended_not_judged")
                 ctx.count("session_heartbeats_never_answered_and_judged", info.get('heartbeats_unanswered', 0))
                 ctx.count("session_heartbeats_never_answered_on_the_control_connection", info.get('heartbeats_unanswered_control', 0))
                 seen = set()
